@@ -88,6 +88,11 @@ def edge_scripts(pkt):
             ops += ["OP add %s %s" % (sec, tx(t)), "OP raw_packet 8192"]
     out.append(script(pkt, ops[:8]))
     out.append(script(pkt, ops[8:]))
+    # setters through a cursor whose record was just deleted must fail, and must not disturb the calls that follow
+    ops = [iter_op("AN", [("0", "delete"), ("0", "set_name %s %s" % (tx("first.example.org"), "-")), ("0", "set_raw_name " + hx(NAMES[1])),
+                          ("1", "set_name %s %s" % (tx("second.example.net"), "-")), ("1", "obs")]),
+           iter_op("AR", [("0", "set_name %s %s" % (tx("a\\b"), "-")), ("0", "set_name %s %s" % (tx("third.example.net"), hx(ZONE))), ("0", "obs")])]
+    out.append(script(pkt, ops))
     ops = []
     for sfx in (0, 1):
         for t in histgen.RENAME_NAMES[:4]:
@@ -144,7 +149,7 @@ def scripts(seed, tier):
     rnd = random.Random(seed)
     # (base 10, whose question name is written through a pointer into the header, is left out: a hook that sets a header
     # field turns that name into garbage, and the trusted readers then have every right to crash -- the caller's doing)
-    bases = histgen.base_packets()[:10] + histgen.behaviour_bases()
+    bases = histgen.base_packets()[:10] + histgen.behaviour_bases()      # bases 10..12 reach into the header
     out = []
     for b in bases:
         out.append(all_entry_script(b, rnd))
